@@ -1,54 +1,18 @@
 (* Props/C02.v — theorems of property C02 (statements only; proofs in coq/Proofs/Merge*.v).
    Model: coq/Model/Merge.v (MFixed = dataframe.py after work/C02/fix-F-C02[a-e].diff, MOrig = as found),
-          composed with Model/Join.v (C03) and Model/MapStream.v (C04, version Fixed).
+          composed with Model/Join.v (C03) and Model/MapStream.v (C04, version Fixed = operations.py after the
+          C04 fixes and work/E7/fix-F-C02f.diff).
    Spec:  coq/Spec/MergeSpec.v (join_pairs, gather_col, merge_spec), Spec/JoinSpec.v, Spec/MapStreamSpec.v. *)
 From Coq Require Import ZArith List Lia Bool.
-From EV Require Import Res Arr Join JoinSpec JoinBase JoinIface JoinDriver JoinMain MapStream MapStreamSpec
+From EV Require Import Res Arr Join JoinSpec JoinBase JoinIface JoinDriver JoinMain MapStream MapStreamSpec MapStreamBase
   MapIndexedDriver Merge MergeSpec MergeBase MergeOrdered MergeMaps MergeTop MergeRows MergeRefuted
   JoinAll MergeAll MergeCopy MergeShape.
 Import ListNotations.
 Open Scope Z_scope.
 
-(* ---- the streamed path: FULL modulo the C03 statement of the selected generator ----------------
-   (kept as first delivered; SUPERSEDED by ordered_merge_total_all / ordered_merge_correct_all below, where the
-   Section hypothesis C03_selected is discharged by C03's JoinAll.streamed_total for all eight generators)
-   For every how in {left,right,inner}, every pair of sorted key columns, every (truthful or not yet
-   used) unique-hint pair, all column lists, all sizes and chunk sizes (join chunk size cs, map-stream
-   chunk size mcs >= 1, value factor vf >= 0, chunked_copy size ccs >= 1): if the generator the repaired
-   table selects satisfies C03's end-to-end statement (it returns the relational join or raises the
-   clear long-run error), no key is repeated on both sides (nbd; else F-C02f), no run is as long as the
-   chunk (else F-C02g), the columns are well formed and the destination names are distinct, then
-   _ordered_merge terminates without error and the destination is exactly ordered_dest: the join maps,
-   every left column gathered through the left side of the relational join and every right column through
-   its right side (empty value where the side is unmatched), clashing names suffixed on both sides. *)
-Section C02_streamed.
-Variables (how:Z) (lu ru:bool) (lk rk:list Z) (lcols rcols:frame) (lsuf rsuf:list Z) (cs mcs vf ccs:Z).
-Hypothesis C03_selected :
-  let v := sel_variant how lu ru in
-  let inv := merge_invalid lu ru (len lk) (len rk) in
-  streamed v (sel_a how lk rk) (sel_b how lk rk) inv cs
-    = Ok (expected (v_kind v) (v_left v) inv (sel_a how lk rk) (sel_b how lk rk)) \/
-  (streamed v (sel_a how lk rk) (sel_b how lk rk) inv cs = Raise E_ValueError /\
-   LongRun (v_kind v) (v_left v) (sel_a how lk rk) (sel_b how lk rk) cs).
-
-Theorem ordered_merge_correct :
-  how = 0 \/ how = 1 \/ how = 2 -> 1 <= mcs -> 0 <= vf -> 1 <= ccs ->
-  sorted lk -> sorted rk ->
-  nbd (sel_a how lk rk) (sel_b how lk rk) ->
-  ~ LongRun (v_kind (sel_variant how lu ru)) (v_left (sel_variant how lu ru)) (sel_a how lk rk) (sel_b how lk rk) cs ->
-  frame_ok (len lk) lcols (mcs * vf) -> frame_ok (len rk) rcols (mcs * vf) ->
-  NoDup (frame_names (ordered_dest how lu ru lk rk lcols rcols lsuf rsuf)) ->
-  ordered_merge MFixed how lu ru lk rk lcols rcols lsuf rsuf (len lk) (len rk) cs mcs vf ccs
-  = Ok (ordered_dest how lu ru lk rk lcols rcols lsuf rsuf).
-Proof.
-  intros. apply (ordered_merge_correct_gen how lu ru lk rk lcols rcols lsuf rsuf cs mcs vf ccs C03_selected); assumption.
-Qed.
-End C02_streamed.
-Print Assumptions ordered_merge_correct.
-
 (* ---- both unique hints given and truthful: FULL, no hypothesis left ------------------------------
-   (C03's streamed_both_unique_correct instantiates the section hypothesis; strictly increasing keys
-   exclude F-C02f and F-C02g) *)
+   (first delivered; the instance lu = ru = true of ordered_merge_correct_all below, with the chunk-size precondition
+   discharged: neither side is trimmed, so strictly increasing keys exclude F-C02g) *)
 Theorem ordered_merge_both_unique_correct :
   forall how lk rk lcols rcols lsuf rsuf cs mcs vf ccs,
   how = 0 \/ how = 1 \/ how = 2 -> 1 <= cs -> 1 <= mcs -> 0 <= vf -> 1 <= ccs ->
@@ -69,15 +33,29 @@ Example ordered_merge_both_unique_nonvacuous :
          ([105;112], CFix [0] [0] [[1];[2];[3];[4]]) ].
 Proof. vm_compute. reflexivity. Qed.
 
-(* ==== extension E4 (1): NO hypothesis about C03 left — every how in {left,right,inner} x every unique-hint pair ====
-   C03_selected is now the lemma MergeAll.C03_selected_all (= JoinAll.streamed_total on the generator and the (a,b)
-   argument order the repaired table selects).  C02's preconditions in the caller's vocabulary:
+(* ==== the streamed path, FULL: no hypothesis about C03 or C04 left — every how in {left,right,inner} x every
+   unique-hint pair, keys repeated on both sides (many-to-many) included ==========================================
+   (extension E4 (1), reconciled with extension E7.)  For every pair of key columns with truthful hints, all column
+   lists, all sizes and chunk sizes (join chunk size cs >= 1, map-stream chunk size mcs >= 1, value factor vf >= 0,
+   chunked_copy size ccs >= 1), well-formed columns and distinct destination names: _ordered_merge terminates without
+   error and the destination is exactly ordered_dest — the join maps, every left column gathered through the left side
+   of the relational join and every right column through its right side (empty value where the side is unmatched),
+   clashing names suffixed on both sides — unless a run of equal keys on a trimmed side fills a whole join chunk, and
+   then it raises the clear ValueError (F-C02g).
+   * C03: the former Section hypothesis C03_selected of `ordered_merge_correct` (MergeTop.ordered_merge_correct_gen) is
+     the lemma MergeAll.C03_selected_all (= JoinAll.streamed_total on the generator and the (a,b) argument order the
+     repaired table selects); `ordered_merge_correct_no_long_run` below IS the former `ordered_merge_correct` with that
+     hypothesis discharged, which is why the Section form is no longer stated here.
+   * C04: since work/E7/fix-F-C02f.diff the map streams need only "valid entries in range" (join_left_map_in_range /
+     join_right_map_in_range: true of ANY key columns), so the hypothesis `nbd` (no key repeated on both sides), which
+     F-C02f had forced on every theorem of this block, is gone: the general variants hold for many-to-many keys
+     (all_hyps_nonvacuous_many_to_many).
+   C02's preconditions in the caller's vocabulary:
      hints_truthful lu ru lk rk   both key columns sorted (the two ordered hints) and strictly sorted where a unique
                                   hint is given; equivalent to C03's kind_pre of the selected generator
                                   (hints_are_kind_pre);
      chunks_ok k cs A B           C03's chunk-size precondition (every window of cs keys of a trimmed side holds two
-                                  different adjacent keys) — or the weaker ~LongRun;
-     nbd A B                      no key repeated on both sides (F-C02f); follows from any truthful unique hint. *)
+                                  different adjacent keys) — or the weaker ~LongRun.  Necessary: long_run_raises_refuted. *)
 Theorem hints_are_kind_pre : forall how lu ru lk rk,
   hints_truthful lu ru lk rk <->
   kind_pre (v_kind (sel_variant how lu ru)) (sel_a how lk rk) (sel_b how lk rk).
@@ -89,7 +67,6 @@ Theorem ordered_merge_total_all :
   forall how lu ru lk rk lcols rcols lsuf rsuf cs mcs vf ccs,
   how = 0 \/ how = 1 \/ how = 2 -> 1 <= cs -> 1 <= mcs -> 0 <= vf -> 1 <= ccs ->
   hints_truthful lu ru lk rk ->
-  nbd (sel_a how lk rk) (sel_b how lk rk) ->
   frame_ok (len lk) lcols (mcs * vf) -> frame_ok (len rk) rcols (mcs * vf) ->
   NoDup (frame_names (ordered_dest how lu ru lk rk lcols rcols lsuf rsuf)) ->
   ordered_merge MFixed how lu ru lk rk lcols rcols lsuf rsuf (len lk) (len rk) cs mcs vf ccs
@@ -103,7 +80,6 @@ Theorem ordered_merge_correct_all :
   forall how lu ru lk rk lcols rcols lsuf rsuf cs mcs vf ccs,
   how = 0 \/ how = 1 \/ how = 2 -> 1 <= cs -> 1 <= mcs -> 0 <= vf -> 1 <= ccs ->
   hints_truthful lu ru lk rk ->
-  nbd (sel_a how lk rk) (sel_b how lk rk) ->
   frame_ok (len lk) lcols (mcs * vf) -> frame_ok (len rk) rcols (mcs * vf) ->
   NoDup (frame_names (ordered_dest how lu ru lk rk lcols rcols lsuf rsuf)) ->
   chunks_ok (v_kind (sel_variant how lu ru)) cs (sel_a how lk rk) (sel_b how lk rk) ->
@@ -112,12 +88,12 @@ Theorem ordered_merge_correct_all :
 Proof. exact MergeAll.ordered_merge_correct_all. Qed.
 Print Assumptions ordered_merge_correct_all.
 
-(* the same under the weakest form of the chunk-size precondition (the one ordered_merge_correct assumed) *)
+(* the same under the weakest form of the chunk-size precondition: the former `ordered_merge_correct` (E7's form, no
+   nbd) with its Section hypothesis about C03 discharged *)
 Theorem ordered_merge_correct_no_long_run :
   forall how lu ru lk rk lcols rcols lsuf rsuf cs mcs vf ccs,
   how = 0 \/ how = 1 \/ how = 2 -> 1 <= cs -> 1 <= mcs -> 0 <= vf -> 1 <= ccs ->
   hints_truthful lu ru lk rk ->
-  nbd (sel_a how lk rk) (sel_b how lk rk) ->
   frame_ok (len lk) lcols (mcs * vf) -> frame_ok (len rk) rcols (mcs * vf) ->
   NoDup (frame_names (ordered_dest how lu ru lk rk lcols rcols lsuf rsuf)) ->
   ~ LongRun (v_kind (sel_variant how lu ru)) (v_left (sel_variant how lu ru)) (sel_a how lk rk) (sel_b how lk rk) cs ->
@@ -126,7 +102,8 @@ Theorem ordered_merge_correct_no_long_run :
 Proof. exact MergeAll.ordered_merge_correct_nolong. Qed.
 Print Assumptions ordered_merge_correct_no_long_run.
 
-(* any truthful unique hint (left, right or both): nbd is discharged too *)
+(* any truthful unique hint (left, right or both): since nbd is no longer a hypothesis of ordered_merge_correct_all
+   this is a plain instance of it (kept for the callers that give a unique hint) *)
 Theorem ordered_merge_unique_hint_correct :
   forall how lu ru lk rk lcols rcols lsuf rsuf cs mcs vf ccs,
   how = 0 \/ how = 1 \/ how = 2 -> 1 <= cs -> 1 <= mcs -> 0 <= vf -> 1 <= ccs ->
@@ -145,7 +122,6 @@ Theorem ordered_merge_raises_only_value_error :
   forall how lu ru lk rk lcols rcols lsuf rsuf cs mcs vf ccs,
   how = 0 \/ how = 1 \/ how = 2 -> 1 <= cs -> 1 <= mcs -> 0 <= vf -> 1 <= ccs ->
   hints_truthful lu ru lk rk ->
-  nbd (sel_a how lk rk) (sel_b how lk rk) ->
   frame_ok (len lk) lcols (mcs * vf) -> frame_ok (len rk) rcols (mcs * vf) ->
   NoDup (frame_names (ordered_dest how lu ru lk rk lcols rcols lsuf rsuf)) ->
   forall c, ordered_merge MFixed how lu ru lk rk lcols rcols lsuf rsuf (len lk) (len rk) cs mcs vf ccs = Raise c ->
@@ -157,7 +133,6 @@ Theorem ordered_merge_no_oob :
   forall how lu ru lk rk lcols rcols lsuf rsuf cs mcs vf ccs,
   how = 0 \/ how = 1 \/ how = 2 -> 1 <= cs -> 1 <= mcs -> 0 <= vf -> 1 <= ccs ->
   hints_truthful lu ru lk rk ->
-  nbd (sel_a how lk rk) (sel_b how lk rk) ->
   frame_ok (len lk) lcols (mcs * vf) -> frame_ok (len rk) rcols (mcs * vf) ->
   NoDup (frame_names (ordered_dest how lu ru lk rk lcols rcols lsuf rsuf)) ->
   forall site, ordered_merge MFixed how lu ru lk rk lcols rcols lsuf rsuf (len lk) (len rk) cs mcs vf ccs <> OOB site.
@@ -168,7 +143,6 @@ Theorem ordered_merge_terminates :
   forall how lu ru lk rk lcols rcols lsuf rsuf cs mcs vf ccs,
   how = 0 \/ how = 1 \/ how = 2 -> 1 <= cs -> 1 <= mcs -> 0 <= vf -> 1 <= ccs ->
   hints_truthful lu ru lk rk ->
-  nbd (sel_a how lk rk) (sel_b how lk rk) ->
   frame_ok (len lk) lcols (mcs * vf) -> frame_ok (len rk) rcols (mcs * vf) ->
   NoDup (frame_names (ordered_dest how lu ru lk rk lcols rcols lsuf rsuf)) ->
   ordered_merge MFixed how lu ru lk rk lcols rcols lsuf rsuf (len lk) (len rk) cs mcs vf ccs <> OutOfFuel.
@@ -180,7 +154,7 @@ Theorem chunk_sizes_unobservable_all :
   forall how lu ru lk rk lcols rcols lsuf rsuf cs mcs vf ccs cs' mcs' vf' ccs',
   how = 0 \/ how = 1 \/ how = 2 ->
   1 <= cs -> 1 <= mcs -> 0 <= vf -> 1 <= ccs -> 1 <= cs' -> 1 <= mcs' -> 0 <= vf' -> 1 <= ccs' ->
-  hints_truthful lu ru lk rk -> nbd (sel_a how lk rk) (sel_b how lk rk) ->
+  hints_truthful lu ru lk rk ->
   chunks_ok (v_kind (sel_variant how lu ru)) cs (sel_a how lk rk) (sel_b how lk rk) ->
   chunks_ok (v_kind (sel_variant how lu ru)) cs' (sel_a how lk rk) (sel_b how lk rk) ->
   frame_ok (len lk) lcols (mcs * vf) -> frame_ok (len rk) rcols (mcs * vf) ->
@@ -192,10 +166,10 @@ Proof. exact MergeAll.chunk_sizes_unobservable_all. Qed.
 Print Assumptions chunk_sizes_unobservable_all.
 
 (* the hypotheses are satisfiable outside the both-unique variants: how='left' with a truthful right-unique hint
-   (left side trimmed and refilled, left columns copied), and how='inner' with the general generator *)
+   (left side trimmed and refilled, left columns copied), how='inner' with the general generator, and how='left' with
+   the general generator on many-to-many keys *)
 Example all_hyps_nonvacuous_right_unique :
   hints_truthful false true [1;2;2;5] [0;2;3;4] /\
-  nbd (sel_a 0 [1;2;2;5] [0;2;3;4]) (sel_b 0 [1;2;2;5] [0;2;3;4]) /\
   chunks_ok (v_kind (sel_variant 0 false true)) 3 (sel_a 0 [1;2;2;5] [0;2;3;4]) (sel_b 0 [1;2;2;5] [0;2;3;4]) /\
   v_writes_l (sel_variant 0 false true) = false /\
   ordered_merge MFixed 0 false true [1;2;2;5] [0;2;3;4]
@@ -209,7 +183,6 @@ Proof. exact all_hyps_example_ru. Qed.
 
 Example all_hyps_nonvacuous_general :
   hints_truthful false false [1;1;2;3] [1;3;4] /\
-  nbd (sel_a 2 [1;1;2;3] [1;3;4]) (sel_b 2 [1;1;2;3] [1;3;4]) /\
   chunks_ok (v_kind (sel_variant 2 false false)) 3 (sel_a 2 [1;1;2;3] [1;3;4]) (sel_b 2 [1;1;2;3] [1;3;4]) /\
   ordered_merge MFixed 2 false false [1;1;2;3] [1;3;4]
      [([107], CFix [0] [0] [[1];[1];[2];[3]])] [([107], CFix [0] [0] [[1];[3];[4]])] [95;108] [95;114] 4 3 3 2 2 2
@@ -218,41 +191,41 @@ Example all_hyps_nonvacuous_general :
   dest_keys 2 [1;1;2;3] [1;3;4] = [1;1;3].
 Proof. exact all_hyps_example_gen. Qed.
 
-(* ---- the destination holds exactly the rows of the relational join: PARTIAL -----------------------
-   ordered_dest (what the streamed path produces, theorem above) = the two join-map fields followed by
+(* ... and outside the former hypothesis nbd (the F-C02f region): how='left' without unique hints, keys 1 and 3 repeated
+   on BOTH sides; the right map [0;1;0;1;inv;2;3;2;3] is not monotone; a numeric and an indexed-string column on each
+   side; join chunk 3 on 5 keys *)
+Example all_hyps_nonvacuous_many_to_many :
+  hints_truthful false false [1;1;2;3;3] [1;1;3;3;4] /\
+  ~ nbd (sel_a 0 [1;1;2;3;3] [1;1;3;3;4]) (sel_b 0 [1;1;2;3;3] [1;1;3;3;4]) /\
+  chunks_ok (v_kind (sel_variant 0 false false)) 3 (sel_a 0 [1;1;2;3;3] [1;1;3;3;4]) (sel_b 0 [1;1;2;3;3] [1;1;3;3;4]) /\
+  ordered_merge MFixed 0 false false [1;1;2;3;3] [1;1;3;3;4]
+     [([107], CFix [0] [0] [[1];[1];[2];[3];[3]]); ([120;97], CIdx [0;1;1;3;4;6] [97;99;99;100;101;101])]
+     [([107], CFix [0] [0] [[1];[1];[3];[3];[4]]); ([120;98], CIdx [0;2;3;3;4;4] [98;98;99;100])] [95;108] [95;114] 5 5 3 2 2 2
+  = Ok [ (N_left_map, map_column [0;0;1;1;2;3;3;4;4]);
+         (N_right_map, map_column [0;1;0;1;INVALID_INDEX_64;2;3;2;3]);
+         ([107;95;108], CFix [0] [0] [[1];[1];[1];[1];[2];[3];[3];[3];[3]]);
+         ([120;97], CIdx [0;1;2;2;2;4;5;6;8;10] [97;97;99;99;100;100;101;101;101;101]);
+         ([107;95;114], CFix [0] [0] [[1];[1];[1];[1];[0];[3];[3];[3];[3]]);
+         ([120;98], CIdx [0;2;3;5;6;6;6;7;7;8] [98;98;99;98;98;99;100;100]) ] /\
+  dest_keys 0 [1;1;2;3;3] [1;1;3;3;4] = [1;1;1;1;2;3;3;3;3].
+Proof. exact all_hyps_example_m2m. Qed.
+
+(* ==== the destination holds exactly the rows of the relational join: FULL (extension E4 (2) + E7) ==============
+   ordered_dest (what the streamed path produces, theorems above) = the two join-map fields followed by
    merge_spec: every left column gathered through the left side of join_pairs and every right column
    through its right side (None -> the type's empty value), names suffixed as documented, rows in the order
    of join_pairs (left/inner: left row order, i.e. non-decreasing key order; right: right row order).
-   Proved for the variants that write both maps (no unique hint on the b side, and every how='inner').
-   Missing (hence _partial): when the b side is unique the a-side columns are copied (chunked_copy) instead of
-   mapped.  SUPERSEDED by streamed_rows_are_join below (extension E4), which proves that half; kept because its
-   column hypothesis (idx_len_ok) is weaker than the frame_wf of the full theorem. *)
-Theorem streamed_rows_are_join_partial :
-  forall how lu ru lk rk lcols rcols lsuf rsuf,
-  let inv := merge_invalid lu ru (len lk) (len rk) in
-  how = 0 \/ how = 1 \/ how = 2 ->
-  v_writes_l (sel_variant how lu ru) = true ->
-  sorted lk -> sorted rk -> nbd (sel_a how lk rk) (sel_b how lk rk) ->
-  len lk <= inv -> len rk <= inv ->
-  idx_len_ok (len lk) lcols -> idx_len_ok (len rk) rcols ->
-  ordered_dest how lu ru lk rk lcols rcols lsuf rsuf
-  = map_fields (fst (jmaps how lu ru lk rk inv)) (snd (jmaps how lu ru lk rk inv)) ++
-    merge_spec how [lk] [rk] lcols rcols lsuf rsuf.
-Proof. exact ordered_dest_is_merge_spec. Qed.
-Print Assumptions streamed_rows_are_join_partial.
-
-Example streamed_rows_are_join_hyps :
-  v_writes_l (sel_variant 1 false true) = true /\ sortedb [1;2;2;4] = true /\ ssortedb [0;2;3;4] = true /\
-  len [1;2;2;4] <= merge_invalid false true 4 4.
-Proof. repeat split; vm_compute; congruence. Qed.
-
-(* ==== extension E4 (2): the copied side; the theorem above becomes FULL =========================================
-   When the b side of the selected generator carries a unique hint, _ordered_merge writes no a-side map and copies
-   the a-side columns with chunked_copy (= identity, chunked_copy_is_identity).  If the hint is truthful every a row
-   has exactly one row in the join, the a side of join_pairs is [Some 0; ...; Some (n-1)]
-   (unique_side_pairs_all_rows), and gathering a well-formed column of n rows through that list gives the column back
-   (copy_is_gather_all_rows; indexed columns: offsets start at 0, are sorted and end at |values|, so the column is the
-   encoding of its own entries).  frame_wf = frame_ok without the value-buffer bound. *)
+   * The variants that write both maps (no unique hint on the b side, and every how='inner'): holds for ANY key
+     columns — not even sorted, keys repeated on both sides included (E7: the maps are in range) — and any columns with
+     the right number of rows (idx_len_ok).  This case alone was `streamed_rows_are_join_partial`.
+   * When the b side of the selected generator carries a unique hint, _ordered_merge writes no a-side map and copies
+     the a-side columns with chunked_copy (= identity, chunked_copy_is_identity).  If the hint is truthful every a row
+     has exactly one row in the join, the a side of join_pairs is [Some 0; ...; Some (n-1)]
+     (unique_side_pairs_all_rows), and gathering a well-formed column of n rows through that list gives the column
+     back (copy_is_gather_all_rows; indexed columns: offsets start at 0, are sorted and end at |values|, so the column
+     is the encoding of its own entries).  frame_wf = frame_ok without the value-buffer bound; sel_acols = the a-side
+     columns (right columns for how='right').  The truthful hint is necessary: with an untruthful one the copy is
+     not a join. *)
 Theorem copy_is_gather_all_rows :
   forall c n,
   match c with
@@ -272,20 +245,24 @@ Theorem streamed_rows_are_join :
   forall how lu ru lk rk lcols rcols lsuf rsuf,
   let inv := merge_invalid lu ru (len lk) (len rk) in
   how = 0 \/ how = 1 \/ how = 2 ->
-  sorted lk -> sorted rk -> nbd (sel_a how lk rk) (sel_b how lk rk) ->
-  (v_writes_l (sel_variant how lu ru) = false -> ssorted (sel_b how lk rk)) ->
   len lk <= inv -> len rk <= inv ->
-  frame_wf (len lk) lcols -> frame_wf (len rk) rcols ->
+  idx_len_ok (len lk) lcols -> idx_len_ok (len rk) rcols ->
+  (v_writes_l (sel_variant how lu ru) = false ->
+     ssorted (sel_b how lk rk) /\ frame_wf (len (sel_a how lk rk)) (sel_acols how lcols rcols)) ->
   ordered_dest how lu ru lk rk lcols rcols lsuf rsuf
   = map_fields (fst (jmaps how lu ru lk rk inv)) (snd (jmaps how lu ru lk rk inv)) ++
     merge_spec how [lk] [rk] lcols rcols lsuf rsuf.
-Proof. exact ordered_dest_is_merge_spec_all. Qed.
+Proof. exact ordered_dest_is_merge_spec_gen. Qed.
 Print Assumptions streamed_rows_are_join.
 
-Example streamed_rows_are_join_copy_hyps :
-  v_writes_l (sel_variant 0 false true) = false /\ sortedb [1;2;2;5] = true /\ ssortedb (sel_b 0 [1;2;2;5] [0;2;3;4]) = true /\
-  len [1;2;2;5] <= merge_invalid false true 4 4.
-Proof. repeat split; vm_compute; congruence. Qed.
+(* the hypotheses are satisfiable in both cases: a-side map written on many-to-many keys / a-side columns copied *)
+Example streamed_rows_are_join_hyps :
+  (v_writes_l (sel_variant 0 false false) = true /\ len [1;1;2;3;3] <= merge_invalid false false 5 5 /\
+   idx_len_ok 5 [([120;97], CIdx [0;1;1;3;4;6] [97;99;99;100;101;101])]) /\
+  (v_writes_l (sel_variant 0 false true) = false /\ ssortedb (sel_b 0 [1;2;2;5] [0;2;3;4]) = true /\
+   len [1;2;2;5] <= merge_invalid false true 4 4 /\
+   frame_wf (len (sel_a 0 [1;2;2;5] [0;2;3;4])) (sel_acols 0 [([120;97], CIdx [0;1;1;3;4] [97;99;99;100])] [])).
+Proof. exact rows_hyps_example. Qed.
 
 (* end to end, nothing assumed about C03 or C04: _ordered_merge returns the two join-map fields followed by merge_spec
    (lengths up to 2^62 rows, the 64-bit marker) *)
@@ -293,7 +270,6 @@ Theorem ordered_merge_is_relational_join :
   forall how lu ru lk rk lcols rcols lsuf rsuf cs mcs vf ccs,
   how = 0 \/ how = 1 \/ how = 2 -> 1 <= cs -> 1 <= mcs -> 0 <= vf -> 1 <= ccs ->
   hints_truthful lu ru lk rk ->
-  nbd (sel_a how lk rk) (sel_b how lk rk) ->
   chunks_ok (v_kind (sel_variant how lu ru)) cs (sel_a how lk rk) (sel_b how lk rk) ->
   frame_ok (len lk) lcols (mcs * vf) -> frame_ok (len rk) rcols (mcs * vf) ->
   NoDup (frame_names (ordered_dest how lu ru lk rk lcols rcols lsuf rsuf)) ->
@@ -318,7 +294,6 @@ Theorem ordered_dest_columns_same_length :
   forall how lu ru lk rk lcols rcols lsuf rsuf,
   let inv := merge_invalid lu ru (len lk) (len rk) in
   how = 0 \/ how = 1 \/ how = 2 ->
-  sorted lk -> sorted rk -> nbd (sel_a how lk rk) (sel_b how lk rk) ->
   (v_writes_l (sel_variant how lu ru) = false -> ssorted (sel_b how lk rk)) ->
   len lk <= inv -> len rk <= inv ->
   frame_wf (len lk) lcols -> frame_wf (len rk) rcols ->
@@ -331,7 +306,6 @@ Theorem ordered_merge_columns_same_length :
   forall how lu ru lk rk lcols rcols lsuf rsuf cs mcs vf ccs,
   how = 0 \/ how = 1 \/ how = 2 -> 1 <= cs -> 1 <= mcs -> 0 <= vf -> 1 <= ccs ->
   hints_truthful lu ru lk rk ->
-  nbd (sel_a how lk rk) (sel_b how lk rk) ->
   chunks_ok (v_kind (sel_variant how lu ru)) cs (sel_a how lk rk) (sel_b how lk rk) ->
   frame_ok (len lk) lcols (mcs * vf) -> frame_ok (len rk) rcols (mcs * vf) ->
   NoDup (frame_names (ordered_dest how lu ru lk rk lcols rcols lsuf rsuf)) ->
@@ -375,7 +349,6 @@ Theorem ordered_merge_left_key_column_sorted :
   forall how lu ru lk rk lcols rcols lsuf rsuf cs mcs vf ccs,
   how = 0 \/ how = 1 \/ how = 2 -> 1 <= cs -> 1 <= mcs -> 0 <= vf -> 1 <= ccs ->
   hints_truthful lu ru lk rk ->
-  nbd (sel_a how lk rk) (sel_b how lk rk) ->
   chunks_ok (v_kind (sel_variant how lu ru)) cs (sel_a how lk rk) (sel_b how lk rk) ->
   frame_ok (len lk) lcols (mcs * vf) -> frame_ok (len rk) rcols (mcs * vf) ->
   NoDup (frame_names (ordered_dest how lu ru lk rk lcols rcols lsuf rsuf)) ->
@@ -392,7 +365,6 @@ Theorem ordered_merge_right_key_column_sorted :
   forall how lu ru lk rk lcols rcols lsuf rsuf cs mcs vf ccs,
   how = 0 \/ how = 1 \/ how = 2 -> 1 <= cs -> 1 <= mcs -> 0 <= vf -> 1 <= ccs ->
   hints_truthful lu ru lk rk ->
-  nbd (sel_a how lk rk) (sel_b how lk rk) ->
   chunks_ok (v_kind (sel_variant how lu ru)) cs (sel_a how lk rk) (sel_b how lk rk) ->
   frame_ok (len lk) lcols (mcs * vf) -> frame_ok (len rk) rcols (mcs * vf) ->
   NoDup (frame_names (ordered_dest how lu ru lk rk lcols rcols lsuf rsuf)) ->
@@ -421,7 +393,17 @@ Proof.
 Qed.
 Print Assumptions chunk_sizes_unobservable_both_unique.
 
-(* ---- the two join maps of sorted key columns meet C04's precondition: FULL ---------------------- *)
+(* ---- the two join maps meet C04's precondition: FULL -------------------------------------------------
+   since fix-F-C02f the precondition is "valid entries in range" and holds for ANY key columns; the
+   right-hand map is moreover non-decreasing (C04's old precondition) iff no key repeats on both sides *)
+Theorem join_left_map_in_range : forall emit inv L R, in_range_map (len L) inv (map fst (join_spec emit inv L R)).
+Proof. exact join_fst_in_range. Qed.
+Print Assumptions join_left_map_in_range.
+
+Theorem join_right_map_in_range : forall emit inv L R, in_range_map (len R) inv (map snd (join_spec emit inv L R)).
+Proof. exact join_snd_in_range. Qed.
+Print Assumptions join_right_map_in_range.
+
 Theorem join_left_map_valid : forall emit inv L R, valid_map (len L) inv (map fst (join_spec emit inv L R)).
 Proof. exact join_fst_valid. Qed.
 Print Assumptions join_left_map_valid.
@@ -493,12 +475,20 @@ Theorem streamed_path_left_name_refuted :       (* F-C02e *)
 Proof. exact orig_left_name_unsuffixed. Qed.
 Print Assumptions streamed_path_left_name_refuted.
 
-(* ---- the repaired tree: REFUTED, known findings (no small safe repair) --------------------------- *)
-Theorem repeated_key_both_sides_refuted :       (* F-C02f: nbd is a necessary hypothesis *)
-  (exists site, merge join_pairs f_args = OOB site) /\
-  map snd (join_spec true INVALID_INDEX_64 [0;0] [0;0]) = [0;1;0;1].
-Proof. exact nonmonotone_map_fails. Qed.
-Print Assumptions repeated_key_both_sides_refuted.
+(* ---- F-C02f, repaired by work/E7/fix-F-C02f.diff (operations.py): a key repeated on both sides gives the
+   non-monotone right map [0;1;0;1]; the merge is the relational join, for a numeric and an indexed-string
+   column on that side (the refutation of the code before the fix is Props/C04.v
+   map_stream_unordered_map_refuted / indexed_stream_unordered_map_refuted) ----------------------------- *)
+Theorem repeated_key_both_sides_fixed :         (* F-C02f *)
+  map snd (join_spec true INVALID_INDEX_64 [0;0] [0;0]) = [0;1;0;1] /\
+  data_cols (merge join_pairs f_args)
+  = Ok (merge_spec 0 [[0;0]] [[0;0]] (a_lcols f_args) (a_rcols f_args) sufL sufR) /\
+  data_cols (merge join_pairs f_args)
+  = Ok [(nV, numcol [10;10;20;20]); (nW, numcol [30;40;30;40]); (nK, CIdx [0;1;3;4;6] [97;98;98;97;98;98])].
+Proof. exact nonmonotone_map_ok. Qed.
+Print Assumptions repeated_key_both_sides_fixed.
+
+(* ---- the repaired tree: REFUTED, known finding (no small safe repair) ----------------------------- *)
 
 Theorem long_run_raises_refuted :               (* F-C02g: ~LongRun is a necessary hypothesis *)
   merge join_pairs g_args = Raise E_ValueError.
